@@ -12,6 +12,7 @@ Section Pres.
     intros HO HJ HS HD HI Hstep. pose proof HI as [IF IQ]. step_split Hstep Ea Est.
     all: try discriminate Hstep.
     all: injection Hstep as <-.
+    all: pop_cont_split.
     all: pose proof (stacks_lookup _ _ _ Ea) as Hst; rewrite Est in Hst.
     all: try match goal with k : kont |- _ => destruct k end.
     all: match goal with |- Inv_wake ?s' =>
@@ -24,7 +25,7 @@ Section Pres.
                     | eapply (frames_other_step' s _ a _ _ _ Hst); [solve_stacks| | |exact IF] ] end).
     (* obligations of new frames *)
     all: try (lazymatch goal with |- forall fr, fr ∈ _ -> _ \/ _ =>
-              intros fr0 Hin; repeat (apply elem_of_cons in Hin as [->|Hin]; [right|]); [..|by left]; try reflexivity; try (cbn; by apply bool_decide_eq_true) end).
+              intros fr0 Hin; repeat (apply elem_of_cons in Hin as [->|Hin]; [right|]); [..|first [by left|left; by right] ]; try reflexivity; try (cbn; by apply bool_decide_eq_true) end).
 
     (* stability of the runner's obligations under a quiet step of somebody else *)
     all: try (lazymatch goal with |- forall c fr, marker fr = true -> _ =>
@@ -117,8 +118,6 @@ Section Pres.
     all: try (eapply ws_dqwfp; hyp; fail).
     all: try (eapply ws_await_pending; hyp; fail).
     all: try (eapply (ws_signal _ _ _ _ _ _ _ _ _ _ HO HI Hst); reflexivity).
-    all: try (eapply (ws_release_idle _ _ _ _ [FRet _]); [exact HO|exact HI|exact Hst|reflexivity|];
-              intros ? ->%elem_of_list_singleton; reflexivity).
     all: try (eapply (ws_release_idle _ _ _ _ []); [exact HO|exact HI|exact Hst|reflexivity|]; by intros ? ?%elem_of_nil).
     (* DrainWaker tables *)
     all: try (match goal with E1 : t_dw_wake _ ?d0 = _ |- _ => rewrite (wc_dw_wake _ HW) in E1; destruct d0; try discriminate E1; injection E1 as <- end).
